@@ -228,6 +228,12 @@ def guarded(fn):
             if case is None:
                 case = dict(args=[repr(a)[:2000] for a in args])
             last = impl[-1]
+            if isinstance(e, MemoryError) and last.name == 'auto_derived_lags':
+                # numpy.histogram_bin_edges asked for an astronomically large number of classes (a rule such as 'fd' on
+                # tie-heavy distances with a tiny inter-quartile range): NumPy's rule refuses the data, like its
+                # ValueError('Too many bins for data range') - a rejected input, the rule is a contract (C02)
+                ctx.reject('numpy-rule-too-many-bins:MemoryError')
+                return None
             ctx.violation('crash', '%s: %s (raised at %s:%d in %s)' % (
                 type(e).__name__, str(e)[:300], os.path.basename(last.filename), last.lineno, last.name), case,
                 signature=dict(kind='crash', exception=type(e).__name__))
